@@ -3,7 +3,7 @@
 import glob, json, os, re
 V = os.path.dirname(os.path.dirname(os.path.abspath(__file__)))
 rows = []
-for d in sorted(glob.glob(V + "/seeded/C*-m*")):
+for d in sorted(glob.glob(V + "/seeded/[CK]*-m*")):
     m = json.load(open(d + "/meta.json"))
     notes = open(d + "/notes.md").read() if os.path.exists(d + "/notes.md") else ""
     site = ", ".join(os.path.basename(f) for f in m["files_changed"])
